@@ -4,5 +4,5 @@ CONSTANTS
   RDepth = 4
 INIT Init
 NEXT Next
-INVARIANTS AgreesWithReference ErrNeverValue ProbeOnce StackShape Emit
+INVARIANTS AgreesWithReference ErrNeverValue LoweringAgrees ProbeOnce StackShape Emit
 CHECK_DEADLOCK FALSE
